@@ -220,13 +220,15 @@ def run_case(case):
     # (c) constructed values: encoders refuse violations
     if case['what'] == 'seqof':
         c = case['expr']
-        sch = univ.SequenceOf(componentType=univ.Integer()) if kind == 'SEQUENCEOF' else univ.SetOf(componentType=univ.Integer())
+        cls = univ.SequenceOf if kind == 'SEQUENCEOF' else univ.SetOf
+        # (with a declared component type, or without one: a container of whatever value objects it is given)
+        sch = cls() if case.get('untyped') else cls(componentType=univ.Integer())
         sch = sch.subtype(subtypeSpec=constraint.ConstraintsIntersection(cons.build(c, kind)))
         for n in case['sizes']:
             o = sch.clone()
             o.clear()
             for i in range(n):
-                o.append(i)
+                o.append(univ.Integer(i))
             want = cons.admits(c, kind, list(range(n)))
             _encoders(F, o, want, '%s of %d elements under %s' % (kind, n, ir.jdump(c)[:160]))
         return fails
@@ -382,7 +384,7 @@ def run_shard(desc, seed, tier, col):
             kind = d.pick(['SEQUENCEOF', 'SETOF'])
             c = cons.draw_expr(d, kind, d.pick([1, 2, 3]))
             sizes = sorted(set([0, 1] + [n for w, n in cons.constants(c) if w == 'size'] + [n + 1 for w, n in cons.constants(c) if w == 'size']))[:8]
-            return {'what': 'seqof', 'kind': kind, 'expr': c, 'sizes': sizes}
+            return {'what': 'seqof', 'kind': kind, 'expr': c, 'sizes': sizes, 'untyped': d.pct(35)}
         kind = d.pick(['SEQUENCE', 'SET'])
 
         def leaf():
